@@ -5,6 +5,8 @@ from .common import handler_preamble
 
 
 def run(chk):
+    from .common import per_instance_state_of_modules
+    per_instance_state_of_modules(chk, "C13.classes.state_is_per_instance", ['context', 'waits', 'retries'])   # no object created in a class body: instances share no mutable state through the class
     ex = explore("wfc")
     handler_preamble(chk, ex, ["operation.wait_for_condition.WaitForConditionOperationExecutor.check_result_status", "operation.wait_for_condition.WaitForConditionOperationExecutor.execute"])
     hobl.c13_wfc(chk, ex)
